@@ -1,15 +1,266 @@
-(* C07 — property theorems (statements only; proofs are in Proofs.v). *)
+(* C07 — property theorems.  Statements only; every proof is `exact <lemma>`
+   (lemmas in Proofs.v / Inst.v).
+
+   Common context of the fshift theorems (record `setting`, Proofs.v): C is ANY
+   field (so in particular the complex numbers) with a ring involution cconj, of
+   characteristic not dividing 2n; n >= 1 samples; w : Z -> C a homomorphism
+   (w (a+b) = w a * w b) with w n = 1, w d <> 1 for 0 < d < n and
+   cconj (w k) = w (-k) — i.e. w k = e^{2 pi i k/n}, the twiddle of
+   scipy.fft.rfft / irfft.  A phase table p : k -> C (0 <= k <= n/2) stands for
+   np.exp(1j * np.angle(rfft(dephas)) * s).  Signals are real: cconj x_j = x_j. *)
 From Coq Require Import ZArith List Bool Field.
-From IBL.C07 Require Import Model Sums Proofs.
+From IBL.C07 Require Import Model Sums Proofs Inst.
 Import ListNotations.
 
-Theorem C07_integer_shift_is_roll_fun :
-  forall (C : Type) (c0 c1 : C) (cadd cmul : C -> C -> C) (copp cinv cconj : C -> C)
-         (n : nat) (w : Z -> C),
-  setting C c0 c1 cadd cmul copp cinv cconj n w ->
-  forall (p x : nat -> C) (m : Z) (j : nat),
-  real_sig C cconj n x ->
-  (forall k, (2 * k <= n)%nat -> p k = w (- (Z.of_nat k * m))%Z) ->
-  fshift_fun C c0 c1 cadd cmul cinv cconj n w p x j = roll_fun C n m x j.
-Proof. exact pub_fshift_int_roll. Qed.
-Print Assumptions C07_integer_shift_is_roll_fun.
+Section Statements.
+Variable C : Type.
+Variables (c0 c1 : C) (cadd cmul : C -> C -> C) (copp cinv cconj : C -> C).
+Variable n : nat.
+Variable w : Z -> C.
+Hypothesis ST : setting C c0 c1 cadd cmul copp cinv cconj n w.
+
+Local Notation fshift := (fshift_fun C c0 c1 cadd cmul cinv cconj n w).
+Local Notation fshift1 := (fshift1 C c0 c1 cadd cmul cinv cconj n w).
+Local Notation frows := (fshift_rows C c0 c1 cadd cmul cinv cconj n w).
+Local Notation rfft := (rfft_at C c0 cadd cmul n w).
+Local Notation re := (re C c1 cadd cmul cinv cconj).
+Local Notation real := (real_sig C cconj n).
+Local Notation rlist := (real_list C cconj).
+Local Notation nthC := (nthC C c0).
+
+(* Shifting by zero (phase table identically 1) is the identity. *)
+Theorem C07_zero_shift_is_identity : forall p x,
+  (2 <= n)%nat -> length x = n -> rlist x -> length p = (n / 2 + 1)%nat ->
+  (forall k, (k <= n / 2)%nat -> nthC p k = c1) ->
+  fshift1 p x = Some x.
+Proof. exact (pub_l_zero C c0 c1 cadd cmul copp cinv cconj n w ST). Qed.
+
+(* Shifting by an integer m (any sign, any magnitude; phase table w(-k m), the
+   m-th power of rfft(dephas)) is exactly np.roll(x, m). *)
+Theorem C07_integer_shift_is_roll : forall p x (m : Z),
+  (2 <= n)%nat -> length x = n -> rlist x -> length p = (n / 2 + 1)%nat ->
+  (forall k, (k <= n / 2)%nat -> nthC p k = w (- (Z.of_nat k * m))%Z) ->
+  fshift1 p x = Some (roll_list C c0 n m x).
+Proof. exact (pub_l_int C c0 c1 cadd cmul copp cinv cconj n w ST). Qed.
+
+(* Successive shifts: applying table p then table q equals one application of
+   the product table, provided (DC) Re(p0 q0) = Re p0 Re q0 — true when
+   p0 = q0 = 1 — and, for even n, the signal has no Nyquist component or
+   Re(ph qh) = Re ph Re qh at the Nyquist bin h = n/2 (true when ph or qh is
+   real, e.g. an integer shift).  For odd n there is no caveat. *)
+Theorem C07_shifts_compose : forall p q x y z, rlist x ->
+  fshift1 p x = Some y -> fshift1 q y = Some z ->
+  re (cmul (nthC p 0) (nthC q 0)) = cmul (re (nthC p 0)) (re (nthC q 0)) ->
+  (Nat.even n = true ->
+     rfft (nthC x) (n / 2) = c0 \/
+     re (cmul (nthC p (n / 2)) (nthC q (n / 2))) = cmul (re (nthC p (n / 2))) (re (nthC q (n / 2)))) ->
+  fshift1 (lmul C cmul p q) x = Some z.
+Proof. exact (pub_l_compose C c0 c1 cadd cmul copp cinv cconj n w ST). Qed.
+
+(* The exact Nyquist caveat (even n): two successive shifts differ from the
+   single shift by  X[n/2] (Re ph Re qh - Re(ph qh)) w(j n/2) / n,
+   a multiple of the alternating sequence (-1)^j. *)
+Theorem C07_compose_nyquist_defect : forall (p q x : nat -> C) (j : nat),
+  real x -> Nat.even n = true ->
+  re (cmul (p 0%nat) (q 0%nat)) = cmul (re (p 0%nat)) (re (q 0%nat)) ->
+  fshift q (fshift p x) j =
+  cadd (fshift (pmul C cmul p q) x j)
+   (cmul (cinv (natC C c0 c1 cadd n))
+     (cmul (cmul (rfft x (n / 2))
+        (fsub C cadd copp (cmul (re (p (n / 2)%nat)) (re (q (n / 2)%nat)))
+                          (re (cmul (p (n / 2)%nat) (q (n / 2)%nat)))))
+        (w (Z.of_nat j * Z.of_nat (n / 2))%Z))).
+Proof. exact (pub_fshift_compose_defect C c0 c1 cadd cmul copp cinv cconj n w ST). Qed.
+
+(* Shape is preserved and the output is real, for any phase table. *)
+Theorem C07_output_shape_and_real : forall p x y,
+  fshift1 p x = Some y -> length y = n /\ rlist y.
+Proof. exact (pub_shape_real C c0 c1 cadd cmul copp cinv cconj n w ST). Qed.
+
+(* Per-trace shifts along the last axis: trace i is shifted with its own table
+   ps[i]; the number of traces is preserved; the call succeeds on every
+   rectangular input with n >= 2. *)
+Theorem C07_per_trace_last_axis : forall ps X,
+  (forall Y, frows ps X = Some Y ->
+     length Y = length X /\ length ps = length X /\
+     forall i, (i < length X)%nat -> fshift1 (nth i ps []) (nth i X []) = Some (nth i Y [])) /\
+  ((2 <= n)%nat -> length ps = length X ->
+   (forall x, In x X -> length x = n) -> (forall p, In p ps -> length p = (n / 2 + 1)%nat) ->
+   exists Y, frows ps X = Some Y).
+Proof.
+  intros ps X. split.
+  - intros Y. exact (pub_rows_spec C c0 c1 cadd cmul copp cinv cconj n w ST ps X Y).
+  - exact (pub_rows_total C c0 c1 cadd cmul copp cinv cconj n w ST ps X).
+Qed.
+
+(* Per-trace shifts along axis 0 of an (n, nc) array: column c is shifted with
+   ps[c]; the shape (n, nc) is preserved.  (Along the last axis fshift2 IS
+   fshift_rows, by definition.) *)
+Theorem C07_per_trace_axis0 : forall nc ps X Z,
+  fshift2 C c0 c1 cadd cmul cinv cconj w true n nc ps X = Some Z ->
+  length Z = n /\ (forall row, In row Z -> length row = nc) /\ length ps = nc /\
+  forall c, (c < nc)%nat -> fshift1 (nth c ps []) (col C c0 c X) = Some (col C c0 c Z).
+Proof. exact (pub_axis0 C c0 c1 cadd cmul copp cinv cconj n w ST). Qed.
+
+(* Below Nyquist a fractional shift is the analytic delay: a real sinusoid of
+   frequency 0 < a < n/2 with complex amplitude c comes out with amplitude
+   c * p_a (p_a = e^{-2 pi i a s/n}: c e^{2 pi i a (j - s)/n} + c.c.); a constant is
+   unchanged; the operator is additive, so this extends to every trigonometric
+   polynomial with harmonics strictly below n/2. *)
+Theorem C07_fractional_shift_delays_sinusoid : forall (p : nat -> C) (c : C) (a j : nat),
+  (0 < a)%nat -> (2 * a < n)%nat ->
+  fshift p (fun i => cadd (cmul c (w (Z.of_nat i * Z.of_nat a)%Z))
+                          (cmul (cconj c) (w (- (Z.of_nat i * Z.of_nat a))%Z))) j
+  = cadd (cmul (cmul c (p a)) (w (Z.of_nat j * Z.of_nat a)%Z))
+         (cmul (cconj (cmul c (p a))) (w (- (Z.of_nat j * Z.of_nat a))%Z)).
+Proof. exact (pub_harmonic C c0 c1 cadd cmul copp cinv cconj n w ST). Qed.
+
+Theorem C07_shift_is_additive_and_keeps_constants : forall (p x y : nat -> C) (c : C) (j : nat),
+  fshift p (fun i => cadd (x i) (y i)) j = cadd (fshift p x j) (fshift p y j) /\
+  (cconj c = c -> p 0%nat = c1 -> fshift p (fun _ => c) j = c).
+Proof.
+  intros p x y c j. split.
+  - exact (pub_additive C c0 c1 cadd cmul copp cinv cconj n w ST p x y j).
+  - exact (pub_constant C c0 c1 cadd cmul copp cinv cconj n w ST p c j).
+Qed.
+
+(* ---- the same, with the phase table generated from the shift ----
+   Sh = the type of shifts (reals in the code) with 0, 1, +, -;
+   phase s k = np.exp(1j * np.angle(rfft(dephas))[k] * s): multiplicative in s,
+   equal to rfft(dephas)[k] = w(-k) at s = 1, and identically 1 at the DC bin
+   (np.angle(1+0j) = 0).  shZ m = the integer m as a shift. *)
+Section Phase.
+Variable Sh : Type.
+Variables (sh0 sh1 : Sh) (shadd : Sh -> Sh -> Sh) (shopp : Sh -> Sh).
+Variable phase : Sh -> nat -> C.
+Hypothesis ph0 : forall k, phase sh0 k = c1.
+Hypothesis phadd : forall s t k, phase (shadd s t) k = cmul (phase s k) (phase t k).
+Hypothesis phopp : forall s k, cmul (phase (shopp s) k) (phase s k) = c1.
+Hypothesis ph1 : forall k, (2 * k <= n)%nat -> phase sh1 k = w (- Z.of_nat k)%Z.
+Hypothesis phdc : forall s, phase s 0%nat = c1.
+Local Notation shZ := (shZ Sh sh0 sh1 shadd shopp).
+
+Theorem C07_phase_zero_shift : forall x j, real x -> (j < n)%nat ->
+  fshift (phase sh0) x j = x j.
+Proof. intros. eapply pub_ph_zero; eauto. Qed.
+
+Theorem C07_phase_integer_shift_is_roll : forall x (m : Z) j, real x ->
+  fshift (phase (shZ m)) x j = roll_fun C n m x j.
+Proof. intros. eapply pub_ph_int; eauto. Qed.
+
+(* shifts add up: always for odd n; for even n when the signal has no Nyquist
+   component or one of the two Nyquist phase factors is real *)
+Theorem C07_phase_shifts_add : forall s t x j, real x ->
+  (Nat.even n = true ->
+     rfft x (n / 2) = c0 \/ cconj (phase s (n / 2)%nat) = phase s (n / 2)%nat
+                        \/ cconj (phase t (n / 2)%nat) = phase t (n / 2)%nat) ->
+  fshift (phase t) (fshift (phase s) x) j = fshift (phase (shadd s t)) x j.
+Proof. intros. eapply pub_ph_compose; eauto. Qed.
+
+(* an integer shift composes exactly with any shift, in either order, even n included *)
+Theorem C07_phase_integer_shift_composes : forall s (m : Z) x j, real x ->
+  fshift (phase (shZ m)) (fshift (phase s) x) j = fshift (phase (shadd s (shZ m))) x j /\
+  fshift (phase s) (fshift (phase (shZ m)) x) j = fshift (phase (shadd (shZ m) s)) x j.
+Proof. intros. eapply pub_ph_compose_int; eauto. Qed.
+
+Theorem C07_phase_shifts_add_odd : forall s t x j, real x -> Nat.even n = false ->
+  fshift (phase t) (fshift (phase s) x) j = fshift (phase (shadd s t)) x j.
+Proof. intros. eapply pub_ph_compose_odd; eauto. Qed.
+
+End Phase.
+End Statements.
+
+Print Assumptions C07_zero_shift_is_identity.
+Print Assumptions C07_integer_shift_is_roll.
+Print Assumptions C07_shifts_compose.
+Print Assumptions C07_compose_nyquist_defect.
+Print Assumptions C07_output_shape_and_real.
+Print Assumptions C07_per_trace_last_axis.
+Print Assumptions C07_per_trace_axis0.
+Print Assumptions C07_fractional_shift_delays_sinusoid.
+Print Assumptions C07_shift_is_additive_and_keeps_constants.
+Print Assumptions C07_phase_zero_shift.
+Print Assumptions C07_phase_integer_shift_is_roll.
+Print Assumptions C07_phase_shifts_add.
+Print Assumptions C07_phase_integer_shift_composes.
+Print Assumptions C07_phase_shifts_add_odd.
+
+(* The caveat is necessary: in the field F9 = F3[i] (n = 2, w k = (-1)^k, all
+   hypotheses of `setting` hold) two half-sample shifts of the impulse [1, 0]
+   (Nyquist phase factor i) give [1/2, 1/2] twice, while the single shift by the
+   sum is the roll [0, 1].  The real code does the same:
+   fshift(fshift([1., 0.], .5), .5) = [.5, .5], fshift([1., 0.], 1.) = [0., 1.]. *)
+Theorem C07_compose_nyquist_refuted :
+  exists (C : Type) (c0 c1 : C) (cadd cmul : C -> C -> C) (copp cinv cconj : C -> C) (w : Z -> C)
+         (p x y z : list C),
+    setting C c0 c1 cadd cmul copp cinv cconj 2 w /\
+    real_list C cconj x /\
+    re C c1 cadd cmul cinv cconj (cmul (nthC C c0 p 0) (nthC C c0 p 0))
+      = cmul (re C c1 cadd cmul cinv cconj (nthC C c0 p 0)) (re C c1 cadd cmul cinv cconj (nthC C c0 p 0)) /\
+    fshift1 C c0 c1 cadd cmul cinv cconj 2 w p x = Some y /\
+    fshift1 C c0 c1 cadd cmul cinv cconj 2 w p y = Some z /\
+    fshift1 C c0 c1 cadd cmul cinv cconj 2 w (lmul C cmul p p) x = Some (roll_list C c0 2 1 x) /\
+    roll_list C c0 2 1 x <> z.
+Proof.
+  exists F9, z9, one9, add9, mul9, opp9, inv9, conj9, w9, p9, x9, h9, h9.
+  split; [exact F9_setting | exact F9_compose_witness].
+Qed.
+Print Assumptions C07_compose_nyquist_refuted.
+
+(* ---- utils.parabolic_max ---- *)
+(* Three samples y(-1), y(0), y(1) of y(t) = al t^2 + be t + ga (al <> 0), over any
+   field with 2 <> 0: the interpolated offset is the stationary point
+   v = -be/(2 al) and the interpolated maximum is y(v). *)
+Theorem C07_parabola_vertex :
+  forall (C : Type) (c0 c1 : C) (cadd cmul : C -> C -> C) (copp cinv : C -> C) (ceqb : C -> C -> bool),
+  field_theory c0 c1 cadd cmul (fsub C cadd copp) copp (fdiv C cmul cinv) cinv (@eq C) ->
+  (forall a b, ceqb a b = true -> a = b) -> cadd c1 c1 <> c0 ->
+  forall al be ga, al <> c0 ->
+  let a := cadd (fsub C cadd copp al be) ga in
+  let c := cadd (cadd al be) ga in
+  let v := parab_ipeak C c0 c1 cadd cmul copp cinv ceqb a ga c in
+  v = cmul (copp be) (cinv (cmul (cadd c1 c1) al)) /\
+  cadd (cmul (cmul (cadd c1 c1) al) v) be = c0 /\
+  parab_maxi C c0 c1 cadd cmul copp cinv ceqb a ga c
+    = cadd (cadd (cmul (cmul al v) v) (cmul be v)) ga.
+Proof.
+  intros C c0 c1 cadd cmul copp cinv ceqb Cf Heq H2.
+  exact (parab_vertex C c0 c1 cadd cmul copp cinv Cf ceqb Heq H2).
+Qed.
+Print Assumptions C07_parabola_vertex.
+
+(* parabolic_max on a 1-D array: np.argmax picks the FIRST maximum (cleb a total
+   preorder); at an edge the result is (imax, x[imax]); in the interior it is
+   imax + the interpolated offset of the three samples around imax, and their
+   interpolated maximum; an empty array is refused. *)
+Theorem C07_parabolic_max_rule :
+  forall (C : Type) (c0 c1 : C) (cadd cmul : C -> C -> C) (copp cinv : C -> C) (cleb ceqb : C -> C -> bool),
+  (forall a, cleb a a = true) ->
+  (forall a b c, cleb a b = true -> cleb b c = true -> cleb a c = true) ->
+  (forall a b, cleb a b = false -> cleb b a = true) ->
+  forall x,
+  (x = [] -> parabolic_max C c0 c1 cadd cmul copp cinv cleb ceqb x = None) /\
+  (x <> [] -> exists i, argmax C cleb x = Some i /\ is_first_max C c0 cleb x i /\
+     ((i = 0%nat \/ i = (length x - 1)%nat) ->
+        parabolic_max C c0 c1 cadd cmul copp cinv cleb ceqb x = Some (true, natC C c0 c1 cadd i, nth i x c0)) /\
+     ((0 < i)%nat -> (i < length x - 1)%nat ->
+        parabolic_max C c0 c1 cadd cmul copp cinv cleb ceqb x =
+        Some (false,
+              cadd (parab_ipeak C c0 c1 cadd cmul copp cinv ceqb (nth (i - 1) x c0) (nth i x c0) (nth (i + 1) x c0))
+                   (natC C c0 c1 cadd i),
+              parab_maxi C c0 c1 cadd cmul copp cinv ceqb (nth (i - 1) x c0) (nth i x c0) (nth (i + 1) x c0)))).
+Proof.
+  intros C c0 c1 cadd cmul copp cinv cleb ceqb Hr Ht Htot.
+  exact (pmax_rule C c0 c1 cadd cmul copp cinv cleb ceqb Hr Ht Htot).
+Qed.
+Print Assumptions C07_parabolic_max_rule.
+
+(* Non-vacuity: the hypotheses are satisfiable (F9, n = 2), and a concrete run of
+   the model over F9: roll of [1, 0] by 1 and by -3. *)
+Example C07_setting_inhabited : setting F9 z9 one9 add9 mul9 opp9 inv9 conj9 2 w9.
+Proof. exact F9_setting. Qed.
+
+Example C07_example_roll :
+  fshift1 F9 z9 one9 add9 mul9 inv9 conj9 2 w9 [one9; w9 (-1)] x9 = Some [z9; one9] /\
+  roll_list F9 z9 2 (-3) x9 = [z9; one9].
+Proof. vm_compute. split; reflexivity. Qed.
